@@ -128,6 +128,18 @@ func errClass(err error) string {
 }
 
 func (w *ctrlWorld) observe() {
+	// reading the cache waits for a sync in progress (a slow filter keeps the controller busy): everything
+	// else is looked at after that, and after whatever the controller had pending has settled
+	cache := cacheSx(w.root.Cache())
+	if w.slowSync {
+		// the slow sync may begin during any of these waits (the relist is due within the period's fuzz);
+		// it happens once, so the third read cannot block
+		for i := 0; i < 2; i++ {
+			w.wait()
+			cache = cacheSx(w.root.Cache())
+		}
+		w.wait()
+	}
 	evs := "()"
 	evclosed := false
 	if w.sub != nil {
@@ -172,7 +184,7 @@ func (w *ctrlWorld) observe() {
 		w.backlog = 0
 	}
 	w.tr.line(kv.L("cobs", w.now(), kv.Bool(isClosed(w.root.Ready())), kv.Bool(isClosed(w.root.Done())), errClass(w.root.Error()),
-		cacheSx(w.root.Cache()), evs, kv.Bool(evclosed), subdone, fmt.Sprint(len(w.srv.LiveWatches())), fmt.Sprint(w.srv.MaxActive), kv.L(calls...)))
+		cache, evs, kv.Bool(evclosed), subdone, fmt.Sprint(len(w.srv.LiveWatches())), fmt.Sprint(w.srv.MaxActive), kv.L(calls...)))
 	w.tr.stats["obs"]++
 }
 
@@ -210,6 +222,7 @@ func (w *ctrlWorld) inject(kind string) {
 
 func runCtrlScenario(t *testing.T, tr *tracer, idx int, seed uint64, mode string) {
 	synctest.Test(t, func(t *testing.T) {
+		reseed(seed, idx) // the library's own randomness (ticker fuzz) follows the scenario's seed
 		r := kv.NewRand(seed*7000003 + uint64(idx))
 		w := &ctrlWorld{tr: tr, r: r, srv: kv.NewServer(), perturb: r.Chance(2, 3), start: time.Now()}
 		w.ctx, w.cancel = context.WithCancel(context.Background())
